@@ -14,6 +14,7 @@ structure DState where
   scrypts : List (Bytes × Bytes × Bytes)     -- (password, salt, out) for the real scrypt
   states : List (String × CoinState)
   node : Node := ⟨⟨CoinState.empty, [], none⟩, [], [], [], 0⟩
+  recv : List RState := []          -- per peer: MessageReceiver state
   cand : Option (CoinState × Summary × Nat × List CTx) := none
 
 def defaultParams : Params := {
@@ -182,6 +183,53 @@ def nodeDigest (C : Crypto) (n : Node) : String :=
       String.intercalate "," (p.outbox.map (outKind C)) ++ "]")
   s!"{stateDigest C n.mgr.coinstate false} lv={lv} pool={pool} wbuf={wbuf} disk={disk} peers={peers}"
 
+/-- a decoded wire message as the handlers see it (objects built by the decoders) -/
+def toInMsg (C : Crypto) : Msg → Option InMsg
+  | .hello h => some (.hello h.nonce h.myPort)
+  | .getBlocks s _ => some (.getBlocks s)
+  | .inventory items => some (.inventory (items.map (·.hash)))
+  | .getData t h => some (.getData t h)
+  | .data (.block bc) => (Block.ofBytes C (BlockC.codec.enc bc)).map .dataBlock
+  | .data (.tx t) => (decTx C.sha256d (Tx.codec.enc t)).map fun x => .dataTx x.1
+  | .data (.header _) => some .dataHeader
+  | .getPeers => some .getPeers
+  | .peers _ => some .peers
+
+/-- bytes read on connection `c`: framing, decoding, dispatch, catch-all -/
+def nodeBytes (d : DState) (C : Crypto) (c : Nat) (data : Bytes) (now : Int) : DState × String :=
+  let n := d.node
+  match n.peers[c]? with
+  | none => (d, "bad-op")
+  | some p =>
+    if !p.open_ then (d, "closed")
+    else
+      let st := (d.recv[c]?).getD RState.init
+      let r := feed magicBytes d.params.maxMessageSize (fun pl => (decodeFrame pl).isNone) st data
+      -- handle the extracted payloads in order; stop at the first exception
+      let rec go (n : Node) : List Bytes → Node × Bool
+        | [] => (n, true)
+        | pl :: rest =>
+          match decodeFrame pl with
+          | none => (handleEvent C d.params n c .undecodable now, false)
+          | some (h, m) =>
+            match toInMsg C m with
+            | none => (handleEvent C d.params n c .undecodable now, false)
+            | some im =>
+              let n' := handleEvent C d.params n c (.msg h.id h.inResponseTo im) now
+              match n'.peers[c]? with
+              | some p' => if p'.open_ then go n' rest else (n', false)
+              | none => (n', false)
+      let (n₁, alive) := go n r.payloads
+      let n₂ := if alive then
+          (match r.err with
+            | none => n₁
+            | some .handler => handleEvent C d.params n₁ c .undecodable now
+            | some _ => handleEvent C d.params n₁ c .badFrame now)
+        else n₁
+      let recv' := (List.range (max d.recv.length (c + 1))).map fun i =>
+        if i = c then r.st else (d.recv[i]?).getD RState.init
+      ({ d with node := n₂, recv := recv' }, "ok")
+
 def nodeStep (d : DState) (C : Crypto) (args : List String) : DState × String :=
   let n := d.node
   match args with
@@ -224,6 +272,14 @@ def nodeStep (d : DState) (C : Crypto) (args : List String) : DState × String :
           (match e with | none => "ret" | some _ => "exc") ++ " " ++
           (match b with | some b => toHex (encBlock b) | none => "nosolution"))
       | _, _ => (d, "bad-op"))
+  | ["bytes", c, data, now] =>
+    (match c.toNat?, now.toInt? with
+      | some c, some t => nodeBytes d C c (hx data) t
+      | _, _ => (d, "bad-op"))
+  | ["hello", c] =>
+    (match c.toNat? with
+      | some c => ({ d with node := n.updatePeer c fun p => { p with helloSent := true, helloReceived := true } }, "ok")
+      | none => (d, "bad-op"))
   | ["digest"] => (d, nodeDigest C n)
   | _ => (d, "bad-op")
 
